@@ -97,7 +97,7 @@ class Rec:
     __slots__ = (
         "cid", "n", "kind", "tidx", "event", "source", "target", "state", "cur",
         "active", "tag", "args", "ukw", "children", "ended", "value", "sent",
-        "seq_begin", "seq_end", "depth",
+        "seq_begin", "seq_end", "depth", "thread",
     )
 
     def __init__(self, cid, n=0, kind="act", tidx=None, event=None, source=None, target=None,
@@ -122,6 +122,7 @@ class Rec:
         self.seq_begin = -1
         self.seq_end = -1
         self.depth = None
+        self.thread = None
 
     def brief(self):
         return (f"{self.cid[0]}.{self.cid[1]}[t{self.tidx} ev={self.event} {self.source}->"
@@ -208,6 +209,7 @@ class Env:
         self.notes = []
         self.yield_hook = None     # thread explorer: explicit scheduling point inside callbacks
         self.flat_mode = False     # async engines: callbacks of one group overlap, never nest
+        self.record_thread = False
 
     # -- observation helpers ---------------------------------------------------
     def _mk(self, prov, name, kind, args, kwargs):
@@ -228,6 +230,9 @@ class Env:
             args=tuple(args),
             ukw=ukw,
         )
+        if self.record_thread:
+            import threading
+            rec.thread = threading.get_ident()
         if sm is not None:
             try:
                 rec.cur = sm.current_state_value
